@@ -10,6 +10,7 @@ import (
 	"math"
 	"strconv"
 	"strings"
+	"sync"
 
 	"github.com/bufbuild/protocompile"
 	"github.com/bufbuild/protocompile/ast"
@@ -549,19 +550,125 @@ func lexPosAnswer(data []byte, lenient bool) (ans string) {
 
 func (lexposEngine) Exec(op string) string {
 	w := strings.Fields(op)
-	if len(w) == 3 && w[0] == "pos" {
+	if len(w) == 3 && (w[0] == "pos" || w[0] == "cpos") {
 		lenient, ok := lexMode(w[1])
 		if !ok {
 			return "bad-op"
+		}
+		if w[0] == "cpos" {
+			return lexConcurrentPosAnswer(UnHex(w[2]), lenient)
 		}
 		return lexPosAnswer(UnHex(w[2]), lenient)
 	}
 	return "bad-op"
 }
 
+// lexConcurrentPosAnswer parses the file once with the real parser, records SourcePos of every
+// offset and Start/End of every item sequentially, then asks the same questions from 8 goroutines
+// at once (several rounds, each goroutine walking the questions in a different order) and reports
+// the first answer that differs from the sequential one. One FileInfo is shared between goroutines
+// by the compiler (source info generation vs diagnostics), so the answers must not depend on who
+// else is asking.
+func lexConcurrentPosAnswer(data []byte, lenient bool) (ans string) {
+	defer lexCatchPanic(&ans)
+	c := &lexCollector{lenient: lenient}
+	root, _ := parser.Parse("f.proto", bytes.NewReader(data), c.handler())
+	if root == nil {
+		return "nil-ast"
+	}
+	fi := root.VerifFileInfo()
+	n := len(fi.VerifData())
+	nItems := len(fi.VerifItems())
+	type q struct {
+		kind int // 0 = SourcePos(offset), 1 = item start, 2 = item end
+		arg  int
+	}
+	var qs []q
+	for o := 0; o <= n; o++ {
+		qs = append(qs, q{0, o})
+	}
+	for i := 0; i < nItems; i++ {
+		if fi.ItemInfo(ast.Item(i)) != nil {
+			qs = append(qs, q{1, i}, q{2, i})
+		}
+	}
+	ask := func(x q) [2]int {
+		var p ast.SourcePos
+		switch x.kind {
+		case 0:
+			p = fi.SourcePos(x.arg)
+		case 1:
+			p = fi.ItemInfo(ast.Item(x.arg)).Start()
+		default:
+			p = fi.ItemInfo(ast.Item(x.arg)).End()
+		}
+		return [2]int{p.Line, p.Col}
+	}
+	want := make([][2]int, len(qs))
+	for i, x := range qs {
+		want[i] = ask(x)
+	}
+	// a second sequential pass in reverse order must agree as well
+	for i := len(qs) - 1; i >= 0; i-- {
+		if got := ask(qs[i]); got != want[i] {
+			return fmt.Sprintf("differ sequential kind=%d arg=%d got=%d:%d want=%d:%d", qs[i].kind, qs[i].arg, got[0], got[1], want[i][0], want[i][1])
+		}
+	}
+	const workers = 8
+	rounds := 6
+	if len(qs) > 1500 {
+		rounds = 3
+	}
+	diffs := make([]string, workers)
+	for round := 0; round < rounds; round++ {
+		var wg sync.WaitGroup
+		start := make(chan struct{})
+		for g := 0; g < workers; g++ {
+			wg.Add(1)
+			go func(g int) {
+				defer wg.Done()
+				defer func() {
+					if r := recover(); r != nil && diffs[g] == "" {
+						diffs[g] = "panic " + Canon(fmt.Sprint(r))
+					}
+				}()
+				<-start
+				m := len(qs)
+				for k := 0; k < m; k++ {
+					var i int
+					switch g % 4 {
+					case 0:
+						i = k // forward
+					case 1:
+						i = m - 1 - k // backward
+					case 2:
+						i = (k*7 + g + round) % m // stride (7 is coprime to most lengths; duplicates are harmless)
+					default:
+						i = (k/2 + (k%2)*(m/2) + g) % m // two interleaved halves
+					}
+					if got := ask(qs[i]); got != want[i] && diffs[g] == "" {
+						diffs[g] = fmt.Sprintf("kind=%d arg=%d got=%d:%d want=%d:%d", qs[i].kind, qs[i].arg, got[0], got[1], want[i][0], want[i][1])
+					}
+				}
+			}(g)
+		}
+		close(start)
+		wg.Wait()
+		for g := 0; g < workers; g++ {
+			if diffs[g] != "" {
+				return "differ " + diffs[g]
+			}
+		}
+	}
+	return "same"
+}
+
 func (lexposEngine) Trivial(op, ans string) bool { return strings.HasSuffix(op, " -") }
 
 func (lexposEngine) Class(op, ans string) string {
+	if strings.HasPrefix(op, "cpos") {
+		return "cpos:" + strings.Fields(ans + " -")[0]
+	}
 	if strings.HasPrefix(ans, "PANIC") {
 		return "pos:panic"
 	}
@@ -614,6 +721,10 @@ func (lexposEngine) Gen(r *Rand, tier string) [][]string {
 			add("s", []byte(s))
 		}
 	}
+	// concurrent queries against one shared FileInfo: long lines, tabs, multi-byte characters, CRLF
+	for _, t := range lexConcurrentTexts(g, r, tier) {
+		ops = append(ops, "cpos l "+Hex(t))
+	}
 	cnt := 600
 	if tier == "thorough" {
 		cnt = 30000
@@ -637,6 +748,41 @@ func (lexposEngine) Gen(r *Rand, tier string) [][]string {
 		add(mode, b)
 	}
 	return lexSingleOpCases(ops)
+}
+
+// lexConcurrentTexts: texts for the cpos op.
+func lexConcurrentTexts(g *lexSrcGen, r *Rand, tier string) [][]byte {
+	var out [][]byte
+	line := func(n int, piece string) string { return strings.Repeat(piece, n) }
+	for _, s := range []string{
+		"message M { optional int32 a = 1; }\n",
+		"option x = \"" + line(300, "ab") + "\";\n",
+		"option x = \"" + line(150, "é€") + "\";\t// c\n",
+		line(40, "a\tbc\t") + "\n" + line(40, "\té\t;") + "\r\n" + line(30, "x = 1; "),
+		"/* " + line(200, "€ ") + "*/ message M {}\r\n" + line(100, "\t") + "enum E { A = 0; }",
+		line(500, "; ") + "\n" + line(500, ";\t"),
+		"syntax = \"proto3\";\r\n\r\nmessage Mé { string " + line(120, "x") + " = 1; } // " + line(100, "é") + "\r\n",
+		line(60, "a = \"\\t\\u00e9😀\"; ") + "\n$ " + line(80, "b "),
+		"// " + line(400, "\t") + "\nmessage M {\n" + line(20, "\toptional string f = 1 [default = \"é\té\"];\n") + "}\n",
+		line(800, "x") + " " + line(800, "y"),
+	} {
+		out = append(out, []byte(s))
+	}
+	n := 24
+	if tier == "thorough" {
+		n = 200
+	}
+	for i := 0; i < n; i++ {
+		var b []byte
+		for len(b) < 300+r.Intn(900) {
+			b = append(b, g.file()...)
+			if r.Chance(1, 2) {
+				b = append(b, Pick(r, []string{" ", "\t", "\t\t", " é ", " /* € */ ", "\r\n", "\n"})...)
+			}
+		}
+		out = append(out, b)
+	}
+	return out
 }
 
 // ---------------------------------------------------------------- engine "literal" (C14)
